@@ -155,6 +155,85 @@ def gen_var_obligations(tr, meta):
     return files
 
 
+def gen_closure(tr, proved):
+    """code_model_sound / code_inverse_model_sound: the transform that the model assembles from the table and the rules
+    TRANSLATED FROM THE SOURCE is an FPair for every structured signal over the patterns whose table_sound (table_inv)
+    obligation was proved in this run (instances of FourierSound.model_sound_tbl / inverse_model_sound; their premises are
+    discharged by the theorems table_sound_<line> / table_inv_<line>).
+    proved: theorem name -> module (file stem) in which it was accepted by coqc.
+    Returns (file text or None, info): no theorem for a direction in which an obligation of a RULE (similarity/shift,
+    modulation) is not proved - that failure is reported by the obligation itself."""
+    info = {'fwd': None, 'inv': None}
+    if tr.entries is None:
+        return None, info
+    first = {}
+    for e in tr.entries:
+        if e['pid'] in PIDNUM and PIDNUM[e['pid']] not in first:
+            first[PIDNUM[e['pid']]] = e          # first match wins, as lookup in gen_tbl_fwd / gen_tbl_inv
+    mods = set()
+    body = []
+    for d, thm, pre, lem in (('fwd', 'table_sound_%d', 'fwd_', 'model_sound_tbl'), ('inv', 'table_inv_%d', 'inv_', 'inverse_model_sound')):
+        di = {'good': [], 'excluded': [], 'rules': {}}
+        ok = True
+        for r in RULES:
+            es = [e for e in tr.entries if e['pid'] == r]
+            if len(es) != 1 or (thm % es[0]['line']) not in proved:
+                di['rules'][r] = None
+                ok = False
+            else:
+                di['rules'][r] = es[0]['line']
+        info[d] = di
+        if not ok:
+            continue
+        cases = []
+        nums = []
+        for num in sorted(first):
+            e = first[num]
+            nm = thm % e['line']
+            if e['pid'] in UNSPECIFIED or e['pid'] not in PAT or nm not in proved:
+                di['excluded'].append({'pid': e['pid'], 'line': e['line']})
+                continue
+            di['good'].append(e['pid'])
+            nums.append(num)
+            mods.add(proved[nm])
+            cases.append('    destruct Hin as [<-|Hin]; [exists %s%d, %s; split; [reflexivity | split; [reflexivity | '
+                         'apply %s; first [exact HQ | exact Hside]]] | ].  (* %s *)' % (pre, e['line'], spec_name(e['pid']), nm, e['pid']))
+        for r in RULES:
+            mods.add(proved[thm % di['rules'][r]])
+        cm = '(* patterns: %s;  not covered (no proved obligation for the entry that fires): %s *)' % (
+            ', '.join(di['good']), ', '.join('%s (line %d)' % (x['pid'], x['line']) for x in di['excluded']) or 'none')
+        body.append('Definition good_pids_%s : list nat := [%s].' % (d, '; '.join('%d%%nat' % n for n in nums)))
+        body.append(cm)
+        if d == 'fwd':
+            body += ['Theorem code_model_sound (K : fld) (C : fctx K) (s : sig) (x : K -> K) :',
+                     '  sden K C s x -> incl (pids s) good_pids_fwd -> FPair C x (Fden K C gen_tbl_fwd gen_rsim_fwd gen_rmod_fwd s).',
+                     'Proof.',
+                     '  apply (model_sound_tbl K C gen_tbl_fwd gen_rsim_fwd gen_rmod_fwd good_pids_fwd).',
+                     '  - intros pid rho Q Hin Hside. pose proof I as HQ. unfold good_pids_fwd in Hin. cbn [In] in Hin.'] + cases + [
+                     '    destruct Hin.',
+                     '  - intros rho Q H7. apply table_sound_%d. exact H7.' % di['rules']['R_simshift'],
+                     '  - intros rho Q H10. apply table_sound_%d. exact H10.' % di['rules']['R_mod'],
+                     'Qed.']
+        else:
+            body += ['(* s structures a SPECTRUM X; the inverse transformer returns y = Fden ... s with FT y = X *)',
+                     'Theorem code_inverse_model_sound (K : fld) (C : fctx K) (s : sig) (X : K -> K) :',
+                     '  sden K C s X -> incl (pids s) good_pids_inv -> FPair C (Fden K C gen_tbl_inv gen_rsim_inv gen_rmod_inv s) X.',
+                     'Proof.',
+                     '  apply (inverse_model_sound K C gen_tbl_inv gen_rsim_inv gen_rmod_inv good_pids_inv).',
+                     '  - intros pid rho Qf Qi HQ Hin Hside. unfold good_pids_inv in Hin. cbn [In] in Hin.'] + cases + [
+                     '    destruct Hin.',
+                     '  - intros rho Qf Qi HQ H7. apply table_inv_%d; first [exact HQ | exact H7].' % di['rules']['R_simshift'],
+                     '  - intros rho Qf Qi HQ H10. apply table_inv_%d; first [exact HQ | exact H10].' % di['rules']['R_mod'],
+                     'Qed.']
+    if not body:
+        return None, info
+    out = [HEADER % 'lcapy', 'Require Import LT.FourierSound.', 'Require Import Gen.FourierGen.',
+           ''.join('Require Import Gen.%s.\n' % m for m in sorted(mods)),
+           'From Coq Require Import List.', 'Import ListNotations.', 'Local Open Scope F_scope.'] + body
+    out += ['Print Assumptions %s.' % n for n in ('code_model_sound', 'code_inverse_model_sound') if any(('Theorem %s ' % n) in l for l in body)]
+    return '\n'.join(out) + '\n', info
+
+
 def structural_checks(tr):
     """facts about the non-table returns that the hand model relies on; returns list of (name, ok, detail)"""
     res = []
